@@ -236,7 +236,7 @@ u8_t *get_v_opt(int argc, char *argv[])
     memset(fout, 0, sizeof(fout));
     fout_fits = true;
     int option_index = 0;
-    optind = 1;
+    optind = 0; // 0 makes glibc re-initialise getopt completely, including its position inside a clustered short option
     vpak_t *res = new vpak_t;
     res->mode = 'u';
     res->ctype = -1;
